@@ -200,7 +200,7 @@ int exec_special_op(World &w, const Op &op) {
     case OP_ro_catalogue: {
         if (!w.is_open) return 2;
         Node before = w.last;
-        w.close_file(false, 0);
+        w.close_file(true, op.sub);          // the session before the ReadOnly one ends with entity handles alive
         if (w.failed()) return 0;
         if (!w.open_file(1, false)) { w.fail("C09.rw-preserves", "ReadOnly open of a closed file failed"); return 0; }
         Node d0 = w.obs();
